@@ -74,6 +74,13 @@ class Fix:
         T.make_audit(self.audit)
         self.bid = T.bid_of("art-%s" % seed)
         self.payloads = {}
+        # the default temporary directory of the children lives on ANOTHER file system (if there is one): code that
+        # does not create its temporary file next to the destination cannot link()/rename() it into place
+        self.tmpdir = other_fs_tmpdir(wd)
+
+    def cleanup(self):
+        if self.tmpdir:
+            shutil.rmtree(self.tmpdir, ignore_errors=True)
 
     def content(self, idx, size):
         T = _T()
@@ -112,8 +119,17 @@ def scan(root):
     return out
 
 
-def other_fs_tmpdir():
-    """a directory on another file system than the scratch area, if there is one"""
+def other_fs_tmpdir(wd):
+    """a fresh directory on another file system than the scratch area `wd`, if there is one"""
+    try:
+        here = os.stat(wd).st_dev
+        for cand in ("/dev/shm",):
+            if os.path.isdir(cand) and os.access(cand, os.W_OK) and os.stat(cand).st_dev != here:
+                d = os.path.join(cand, "bobverif-c09-tmp-%d-%s" % (os.getpid(), hashlib.sha1(wd.encode()).hexdigest()[:8]))
+                os.makedirs(d, exist_ok=True)
+                return d
+    except OSError:
+        pass
     return None
 
 
@@ -179,6 +195,12 @@ class DestWatch:
 
 def _action(fix, spec, root, idx=0, tag="a"):
     """the real call of scenario `spec` against archive `root`"""
+    a, dest = _action0(fix, spec, root, idx, tag)
+    a["tmpdir"] = fix.tmpdir
+    return a, dest
+
+
+def _action0(fix, spec, root, idx, tag):
     k = spec["kind"]
     aspec = {"path": root}
     if spec.get("fileMode") is not None:
@@ -258,7 +280,7 @@ def run_single(fix, spec, run_id, inject=(), collect_calls=False):
     after = scan(root)
     rec = {"spec": spec, "run": run_id, "inject": list(inject), "events": events, "result": res, "how": how,
            "before": _rel(before, root), "after": _rel(after, root), "dest": os.path.relpath(dest, root),
-           "nwrites": norm.nwrites, "npack": norm.writes_before_exit, "findings": [],
+           "nwrites": norm.nwrites, "npack": norm.writes_before_exit, "info": norm.summary(), "findings": [],
            "injected_seen": any(c.get("injected") for c in calls), "root": root}
     if collect_calls:
         rec["_calls"] = calls
@@ -293,18 +315,27 @@ def _rel(files, root):
     return {os.path.relpath(p, root): v for p, v in files.items()}
 
 
-def _event_index(events, op):
-    for i, e in enumerate(events):
-        if e["op"] == op:
-            return i
-    return None
+def _failed_upload_clause(spec, rec):
+    """a failed upload leaves nothing under the artifact name"""
+    f = rec["fault"]
+    if spec["kind"] in ("package", "mirror") and spec.get("pre", "fresh") != "present" and f["before_link"] \
+            and not (f["what"] == "eio" and f["op"] == "statDest") and not (f["what"] == "eio" and not f["proto"]):
+        failed = rec["how"] == "killed" or (rec["result"] or {}).get("res") in ("fail", "internal")
+        if failed and rec["dest"] in rec["after"]:
+            rec["findings"].append({"what": "upload failed (%s at %s #%d, before link) but the artifact name is bound"
+                                    % (f["what"], f["sys"], f["k"]), "signature": "failed-upload-published"})
 
 
 def single_task(args):
     """baseline + every EIO + every kill for one scenario (runs in a pool worker)"""
     spec, wd, deadline, limits = args
     T = _T()
-    out = {"spec": spec, "records": [], "skipped": None, "n_points": 0, "n_done": 0}
+    out = {"spec": spec, "records": [], "skipped": None, "n_points": 0, "n_done": 0, "not_run": False}
+    floor = limits.get("floor", 0)
+    fix = None
+    if time.time() > deadline and not floor:
+        out["not_run"] = True
+        return out
     try:
         fix = Fix(wd, spec["seed"])
         base = run_single(fix, spec, "base", collect_calls=True)
@@ -316,8 +347,9 @@ def single_task(args):
             return out
         # fresh fault free upload must publish (sanity of the scenario, also catches uploads that cannot work)
         if spec["kind"] in ("package", "mirror") and spec.get("pre", "fresh") != "present":
-            if base["result"]["res"] == "ok" and base["dest"] not in base["after"]:
-                base["findings"].append({"what": "fault free upload reported success but the artifact name is absent",
+            if base["dest"] not in base["after"]:
+                base["findings"].append({"what": "fault free upload into an archive without the artifact returned %r and the artifact "
+                                                 "name is absent afterwards" % (base["result"],),
                                          "signature": "upload-does-not-publish"})
         ev_at = {e["at"]: e for e in base["events"]}
         link_at = None
@@ -336,27 +368,31 @@ def single_task(args):
                            "before_link": link_at is None or i < link_at, "is_link": i == link_at})
         out["n_points"] = len(points)
         # protocol operations first, interpreter-internal calls on the temporary file afterwards
-        order = [(p, "eio") for p in points if p["proto"]] + [(p, "kill") for p in points if p["proto"]] + \
-                [(p, "kill") for p in points if not p["proto"]] + [(p, "eio") for p in points if not p["proto"]]
+        order = []
+        for p in points:
+            if p["proto"]:
+                order += [(p, "eio"), (p, "kill")]
+        order += [(p, "kill") for p in points if not p["proto"]] + [(p, "eio") for p in points if not p["proto"]]
         if limits.get("max_points") is not None:
             r = random.Random("pts-%s" % json.dumps(spec, sort_keys=True))
             keep = order[:limits["max_points"]] if len(order) <= limits["max_points"] else \
                 [order[j] for j in sorted(r.sample(range(len(order)), limits["max_points"]))]
             order = keep
+        if floor:
+            # the mandatory part of a run: spread over the whole protocol instead of taking a prefix
+            nproto = len([1 for p in points if p["proto"]]) * 2
+            head = order[:nproto]
+            step = max(1, len(head) // floor)
+            picked = head[::step][:floor]
+            order = picked + [x for x in order if x not in picked]
         for n, (p, what) in enumerate(order):
-            if time.time() > deadline:
+            if time.time() > deadline and n >= floor:
                 break
             inj = "%s:%s:when=%d" % (p["sys"], "error=EIO" if what == "eio" else "signal=SIGKILL", p["k"])
             rec = run_single(fix, spec, "%s%d" % (what[0], n), inject=[inj])
             rec["fault"] = {"what": what, "sys": p["sys"], "k": p["k"], "proto": p["proto"], "op": p["op"],
                             "before_link": p["before_link"], "is_link": p["is_link"]}
-            # a failed upload leaves nothing under the artifact name
-            if spec["kind"] in ("package", "mirror") and spec.get("pre", "fresh") != "present" and p["before_link"] \
-                    and not (what == "eio" and p["op"] == "statDest") and not (what == "eio" and not p["proto"]):
-                failed = rec["how"] == "killed" or (rec["result"] or {}).get("res") in ("fail", "internal")
-                if failed and rec["dest"] in rec["after"]:
-                    rec["findings"].append({"what": "upload failed (%s at %s #%d, before link) but the artifact name is bound"
-                                            % (what, p["sys"], p["k"]), "signature": "failed-upload-published"})
+            _failed_upload_clause(spec, rec)
             out["records"].append(rec)
             out["n_done"] += 1
     except T.TraceUnavailable as e:
@@ -365,6 +401,8 @@ def single_task(args):
         out["skipped"] = "harness error in scenario: " + traceback.format_exc()[-1500:]
     finally:
         shutil.rmtree(wd, ignore_errors=True)
+        if fix is not None:
+            fix.cleanup()
     return out
 
 
@@ -466,6 +504,7 @@ def sched_task(args):
     T = _T()
     out = {"spec": spec, "skipped": None, "findings": [], "events": [], "procs": []}
     st = None
+    fix = None
     try:
         fix = Fix(wd, spec["seed"])
         root = os.path.join(wd, "arch")
@@ -493,7 +532,7 @@ def sched_task(args):
         meta_seen = {}
         while steps < 4000:
             live = [i for i in range(n) if st.alive(i)]
-            if not live or time.time() > deadline + 60:
+            if not live or (time.time() > deadline + 5 and not spec.get("mandatory")):
                 break
             if script:
                 i, what = script.pop(0)
@@ -515,6 +554,7 @@ def sched_task(args):
             watch.check("after step %d (process %d)" % (steps, i))
         ends = st.close()
         evs = st.events
+        out["infos"] = [nm.summary() for nm in st.norms]
         st = None
         watch.check("at the end")
         out["findings"] = watch.findings
@@ -534,21 +574,12 @@ def sched_task(args):
                     ch.finish()
                 except Exception:
                     pass
+        if fix is not None:
+            fix.cleanup()
     return out
 
 
 # ------------------------------------------------------------------------------------------- free running stress
-
-def _stress_uploader(args):
-    fixwd, root, bid_hex, audit, content, file_mode, barrier_file = args
-    T = _T()
-    while not os.path.exists(barrier_file):
-        time.sleep(0.0005)
-    spec = {"path": root}
-    if file_mode:
-        spec["fileMode"] = file_mode
-    return T.perform({"kind": "package", "spec": spec, "bid": bid_hex, "audit": audit, "content": content})
-
 
 def stress_task(args):
     """free running uploaders (+ mirrors) with different payloads and polling readers on one Build-Id"""
@@ -596,7 +627,7 @@ def stress_task(args):
             watch = DestWatch(dest, payloads)
             open(go, "w").close()
             left = set(pids)
-            t_end = time.time() + 60
+            t_end = max(time.time() + 20, min(deadline + 10, time.time() + 60))
             while left and time.time() < t_end:
                 watch.check("reader poll in round %d" % rnd)
                 out["reads"] += 1
@@ -628,6 +659,7 @@ def stress_task(args):
                 out["winners"][str(watch.first["which"])] = out["winners"].get(str(watch.first["which"]), 0) + 1
             out["rounds"] += 1
             shutil.rmtree(rwd, ignore_errors=True)
+            fix.cleanup()
     except Exception:
         out["skipped"] = "harness error in stress: " + traceback.format_exc()[-1500:]
     finally:
@@ -646,8 +678,8 @@ def tail_task(args):
     try:
         fix = Fix(wd, spec["seed"])
         size = spec["start"]
-        for attempt in range(12):
-            if time.time() > deadline and out["hit"]:
+        for attempt in range(14):
+            if time.time() > deadline and attempt > 0 and not (spec.get("mandatory") and not out["hit"]):
                 break
             up = os.path.join(wd, "up%d" % attempt)
             cache = os.path.join(wd, "cache%d" % attempt)
@@ -691,22 +723,18 @@ def tail_task(args):
 
 # ------------------------------------------------------------------------------------------- correspondence with the model
 
-def _counts(evs, baseline=None):
-    """(N, nPack, sizes) of one process from its own events (preferred) or the fault free baseline"""
+def _counts(evs, info):
+    """(N, nPack, sizes) of one process: how many chunks it writes and how many of them before `__exit__`.
+    `info` = Normaliser.summary(): whether (and after how many writes) LocalArchiveUploader.__exit__ was entered"""
     sizes = [e["size"] for e in evs if e["op"] == "write" and e.get("res") == "ok"]
-    pack = [e for e in evs if e["op"] == "write" and not e.get("in_exit")]
-    reached_exit = any(e["op"] == "write" and e.get("in_exit") for e in evs) or \
-        any(e["op"] in ("chmod", "link", "replace") for e in evs)
-    failed_write = any(e["op"] == "write" and e.get("res") != "ok" for e in evs)
-    if reached_exit and not failed_write:
-        npack = len([e for e in pack if e.get("res") == "ok"])
-        n = max(len(sizes), npack)
-        if baseline and baseline["N"] > n:
-            n = baseline["N"]
-        return n, npack, sizes
-    if baseline:
-        return baseline["N"], baseline["nPack"], sizes + baseline["sizes"][len(sizes):]
-    return len(sizes) + 2, len(sizes) + 2, sizes
+    if info and info.get("marker") and not info.get("exit_failing"):
+        npack = info["writes_before_exit"]
+        flush = 1 if any(e["op"] == "write" and e.get("in_exit") for e in evs) else 0
+        return max(npack + flush, len(sizes)), npack, sizes
+    # `__exit__` not reached, or reached with an exception pending: every observed write belongs to the with-body
+    # and the body was not finished
+    n = len(sizes) + 1
+    return n, n, sizes
 
 
 def _real_label(e):
@@ -759,13 +787,13 @@ RES_OF_PC = {"done:ok": "ok", "done:lost": "ok", "done:skipped": "skipped", "don
              "done:notFound": "notFound", "done:read": "ok"}
 
 
-def build_case(kinds, file_modes, evlist, ends, after, dest_rel, pre=None, baselines=None, meta_rel=None):
+def build_case(kinds, file_modes, evlist, ends, after, dest_rel, pre=None, infos=None, meta_rel=None):
     """-> (driver request, list of expectations) for one recorded run.
     kinds[i] of process i; evlist = [(pid, event)] in global order; ends[i] = {"result","how"};
     pre = None | {"kind", "size", "mode"} (an artifact/metadata file that existed before, modelled as process len(kinds))"""
     n = len(kinds)
     per = {i: [e for p, e in evlist if p == i] for i in range(n)}
-    counts = {i: _counts(per[i], (baselines or {}).get(i)) for i in range(n)}
+    counts = {i: _counts(per[i], (infos or {}).get(i)) for i in range(n)}
     procs = []
     for i in range(n):
         N, npk, _ = counts[i]
@@ -787,6 +815,9 @@ def build_case(kinds, file_modes, evlist, ends, after, dest_rel, pre=None, basel
         if op == "fetch":
             if res == "inj":
                 sched.append([p, "failFetch"]); expect.append([p, ["fetch", "inj"]])
+            continue
+        if op == "bodyFail":
+            sched.append([p, "failFetch"]); expect.append([p, ["fetch", "inj"]])
             continue
         if op in ("srcClose", "rClose"):
             continue
@@ -812,7 +843,7 @@ def build_case(kinds, file_modes, evlist, ends, after, dest_rel, pre=None, basel
         sched.append([p, choice]); expect.append([p, lab])
     req = {"op": "run", "procs": procs, "sched": sched}
     return req, {"expect": expect, "counts": counts, "kinds": kinds, "file_modes": file_modes, "ends": ends,
-                 "after": after, "dest": dest_rel, "pre": pre, "n": n, "meta_rel": meta_rel}
+                 "after": after, "dest": dest_rel, "pre": pre, "n": n, "meta_rel": meta_rel, "infos": infos or {}}
 
 
 def compare_case(req, exp, rep):
@@ -858,8 +889,21 @@ def compare_case(req, exp, rep):
             continue
         if want != got:
             diffs.append("process %d returned %r (%s), model %s" % (i, r["res"], (r.get("msg") or "")[:80], mp["pc"]))
-    # final directory
     sizes = {i: exp["counts"][i][2] for i in range(n)}
+    # a reader that reached end of file has read exactly the bytes of the model reader's chunks
+    for i in range(n):
+        if kinds[i] == "reader" and exp["ends"][i]["how"] == "exit" and fin["procs"][i]["pc"] in ("done:read", "done:notFound"):
+            tot, known = 0, True
+            for c in fin["procs"][i]["acc"]:
+                p, j = c // 1000, c % 1000
+                if p < n and j < len(sizes[p]):
+                    tot += sizes[p][j]
+                else:
+                    known = False
+            got = (exp["infos"].get(i) or {}).get("read_bytes")
+            if known and got is not None and got != tot:
+                diffs.append("reader %d read %d bytes, the model reader read chunks %r = %d bytes" % (i, got, fin["procs"][i]["acc"], tot))
+    # final directory
 
     def size_of(chunks):
         tot = 0
@@ -918,13 +962,9 @@ def case_of_single(rec, base):
         b = rec["before"].get(rel)
         if b is not None:
             pre = {"kind": "package" if kind in ("package", "mirror") else kind, "size": b["size"], "mode": b["mode"]}
-    bl = None
-    if base is not None and base.get("npack") is not None:
-        bsz = [e["size"] for e in base["events"] if e["op"] == "write" and e.get("res") == "ok"]
-        bl = {0: {"N": base["nwrites"], "nPack": base["npack"], "sizes": bsz}}
     meta_rel = {kind: rec["dest"]} if kind in ("buildid", "fprnt") else None
-    return build_case([kind], [spec.get("fileMode")], evlist, ends, rec["after"], rec["dest"], pre=pre, baselines=bl,
-                      meta_rel=meta_rel)
+    return build_case([kind], [spec.get("fileMode")], evlist, ends, rec["after"], rec["dest"], pre=pre,
+                      infos={0: rec["info"]}, meta_rel=meta_rel)
 
 
 def case_of_sched(out):
@@ -936,7 +976,8 @@ def case_of_sched(out):
     for p in spec["procs"]:
         if p["kind"] in ("buildid", "fprnt"):
             meta_rel[p["kind"]] = out["dest"][:-4] + "." + p["kind"]
-    return build_case(kinds, fms, evlist, out["procs"], out["after"], out["dest"], meta_rel=meta_rel or None)
+    return build_case(kinds, fms, evlist, out["procs"], out["after"], out["dest"],
+                      infos={i: x for i, x in enumerate(out["infos"])}, meta_rel=meta_rel or None)
 
 
 # ------------------------------------------------------------------------------------------- plans
@@ -995,6 +1036,13 @@ def plan_sched(ctx):
         specs.append({"mode": "sched", "seed": seed, "pre": "fresh",
                       "procs": [{"kind": "mirror", "size": 15000, "fileMode": None}, {"kind": "package", "size": 300, "fileMode": 0o640}],
                       "script": [[0, "op"]] * j + [[1, "end"], [0, "end"]], "directed": "mirror-lost-race@%d" % j})
+    for j, script in enumerate([[[0, "end"], [1, "end"], [2, "end"]],
+                                [[0, "op"]] * 9 + [[1, "op"], [1, "op"], [0, "end"], [1, "end"], [2, "end"]]]):
+        seed += 1
+        specs.append({"mode": "sched", "seed": seed, "pre": "fresh",
+                      "procs": [{"kind": "package", "size": 12000, "fileMode": 0o640}, {"kind": "reader"},
+                                {"kind": "package", "size": 300, "fileMode": None}],
+                      "script": script, "directed": "reader-after-link@%d" % j})
     kinds = ["package", "package", "package", "mirror", "reader", "buildid", "fprnt", "buildid"]
     for n in range(ctx.scale(40, 600)):
         seed += 1
@@ -1010,9 +1058,12 @@ def plan_sched(ctx):
         if r.random() < 0.4:
             i = r.randrange(k)
             kd = procs[i]["kind"]
-            if kd in ("package", "mirror"):
+            if kd == "package":
                 spec["eio"] = {str(i): r.choice([["write", r.randrange(1, 5)], ["link", 1], ["unlink", 1], ["chmod", 1],
                                                 ["mkdir", r.randrange(1, 4)]])}
+            elif kd == "mirror":
+                # (tarfile swallows chmod errors on extracted files: not injected here)
+                spec["eio"] = {str(i): r.choice([["write", r.randrange(1, 7)], ["link", 1], ["mkdir", r.randrange(1, 5)]])}
             elif kd in ("buildid", "fprnt"):
                 spec["eio"] = {str(i): r.choice([["write", 1], ["rename", 1], ["chmod", 1], ["mkdir", r.randrange(1, 4)]])}
         specs.append(spec)
@@ -1037,10 +1088,14 @@ def oracle(ctx):
     T = _T()
     _RECORDS["single"], _RECORDS["sched"], _RECORDS["complete"] = [], [], False
     have_strace = T.strace_works()
-    t_all = max(20.0, ctx.time_left())
-    # ---- (0) regression search for F-C09-1 and free running stress: need no strace
-    items = [({"mode": "tail", "seed": ctx.seed * 10 + i, "start": 2500 + 997 * i + 13 * ctx.seed, "want": 4 + i, "hits": 1},
-              os.path.join(ctx.tmp, "tail%d" % i), time.time() + 0.15 * t_all) for i in range(ctx.scale(3, 12))]
+    t0 = time.time()
+    avail = max(40.0, ctx.time_left() - 12.0)          # keep a little for the model comparison
+    phase = {}
+    at = lambda frac: t0 + frac * avail
+    # ---- (0) regression search for F-C09-1: needs no strace
+    items = [({"mode": "tail", "seed": ctx.seed * 10 + i, "start": 2500 + 997 * i + 13 * ctx.seed, "want": 4 + i, "hits": 1,
+               "mandatory": i == 0},
+              os.path.join(ctx.tmp, "tail%d" % i), at(0.10)) for i in range(ctx.scale(3, 12))]
     for out in ctx.parallel(tail_task, items):
         if out["skipped"]:
             ctx.skip(out["skipped"][:300])
@@ -1048,19 +1103,21 @@ def oracle(ctx):
         ctx.case(("tail", out["spec"]), nontrivial=bool(out["hit"]))
         for f in out["findings"]:
             ctx.violation(f["what"], dict(out["spec"], size=f.get("size")), f["signature"])
+    phase["tail"] = round(time.time() - t0, 1)
     if not have_strace:
         ctx.skip("strace with fault injection is not available: traced scenarios skipped")
     else:
         T.available_syscalls()
         # ---- (1) single process scenarios: fault free, EIO everywhere, SIGKILL everywhere
         specs = plan_single(ctx)
-        deadline = time.time() + 0.45 * t_all
-        items = []
-        for i, sp in enumerate(specs):
-            dl = max(deadline, time.time() + 25) if i < 6 else deadline
-            items.append((sp, os.path.join(ctx.tmp, "s%04d" % i), dl, {"max_points": None}))
+        items = [(sp, os.path.join(ctx.tmp, "s%04d" % i), at(0.55), {"max_points": None, "floor": 12 if i < 3 else 0})
+                 for i, sp in enumerate(specs)]
         outs = ctx.parallel(single_task, items)
         for out in outs:
+            if out["not_run"]:
+                ctx.count("single_scenarios", "not-run(out of time)")
+                continue
+            ctx.count("single_scenarios", "run")
             if out["skipped"]:
                 ctx.skip(out["skipped"][:300])
             base = out["records"][0] if out["records"] else None
@@ -1081,11 +1138,21 @@ def oracle(ctx):
                 _RECORDS["single"].append(rec)
             ctx.count("single_points", "planned", out["n_points"] * 2)
             ctx.count("single_points", "done", out["n_done"])
+        phase["single"] = round(time.time() - t0, 1)
         # ---- (2) controlled multi process schedules
         specs = plan_sched(ctx)
-        deadline = time.time() + 0.25 * t_all
-        items = [(sp, os.path.join(ctx.tmp, "m%04d" % i), max(deadline, time.time() + 20) if i < 4 else deadline)
-                 for i, sp in enumerate(specs)]
+        for sp in specs[:2]:
+            sp["mandatory"] = True
+        # directed schedules and random ones alternate, so that a short run sees both
+        directed = [sp for sp in specs if sp.get("directed")]
+        rnd = [sp for sp in specs if not sp.get("directed")]
+        mixed = []
+        while directed or rnd:
+            if directed:
+                mixed.append(directed.pop(0))
+            if rnd:
+                mixed.append(rnd.pop(0))
+        items = [(sp, os.path.join(ctx.tmp, "m%04d" % i), at(0.82)) for i, sp in enumerate(mixed)]
         for out in ctx.parallel(sched_wrapper, items):
             if out.get("not_run"):
                 ctx.count("sched", "not-run(out of time)")
@@ -1102,14 +1169,16 @@ def oracle(ctx):
                     ctx.count("sched_link", e["res"])
                 if e["op"] == "statDest":
                     ctx.count("sched_statDest", e["res"])
+                if e["op"] == "rOpen":
+                    ctx.count("sched_reader_open", e["res"])
             _report(ctx, out["findings"], {"mode": "sched", "spec": out["spec"]})
             _RECORDS["sched"].append(out)
+        phase["sched"] = round(time.time() - t0, 1)
     # ---- (3) free running stress
     nst = ctx.scale(8, 48)
-    t_left = max(10.0, min(0.2 * t_all, ctx.time_left() - 15))
     items = [({"mode": "stress", "seed": ctx.seed * 100 + i, "rounds": ctx.scale(3, 25), "uploaders": 2 + i % 7,
                "mirrors": i % 2, "sizes": [300, 15000, 80000, 400000][:3 + (ctx.tier != "quick")]},
-              os.path.join(ctx.tmp, "x%03d" % i), time.time() + t_left) for i in range(nst)]
+              os.path.join(ctx.tmp, "x%03d" % i), at(0.97)) for i in range(nst)]
     for out in ctx.parallel(stress_task, items, workers=max(2, min(8, (os.cpu_count() or 4) // 2))):
         if out["skipped"]:
             ctx.skip(out["skipped"][:300])
@@ -1120,12 +1189,14 @@ def oracle(ctx):
         for w, c in out["winners"].items():
             ctx.count("stress_winner", w, c)
         _report(ctx, out["findings"], {"mode": "stress", "spec": out["spec"]})
+    phase["stress"] = round(time.time() - t0, 1)
+    ctx.notes["oracle_phase_end_s"] = phase
     _RECORDS["complete"] = True
 
 
 def sched_wrapper(args):
     spec, wd, deadline = args
-    if time.time() > deadline:
+    if time.time() > deadline and not spec.get("mandatory"):
         return {"spec": spec, "not_run": True, "skipped": None}
     try:
         return sched_task(args)
@@ -1149,7 +1220,7 @@ def correspond(ctx):
             continue
         base = rec.get("_base")
         try:
-            req, exp = case_of_single(rec, base if base is not rec else (base if base.get("npack") is not None else None))
+            req, exp = case_of_single(rec, base)
         except Exception as e:  # noqa
             ctx.skip("cannot build model case: %s" % e)
             continue
@@ -1197,12 +1268,26 @@ def replay(ctx, case):
         for f in out["findings"]:
             ctx.violation(f["what"], case, f["signature"])
     elif mode == "single":
-        out = single_task((case["spec"], wd, far, {"max_points": None}))
-        f0 = case.get("fault")
-        for rec in out["records"]:
-            f = rec.get("fault")
-            if f0 is None or (f and (f["what"], f["sys"], f["k"]) == (f0["what"], f0["sys"], f0["k"])) or not f:
-                _report(ctx, rec["findings"], case)
+        T = _T()
+        spec, f = case["spec"], case.get("fault")
+        fix = Fix(wd, spec["seed"])
+        try:
+            if f is None:
+                rec = run_single(fix, spec, "replay")
+                if spec["kind"] in ("package", "mirror") and spec.get("pre", "fresh") != "present" and rec["dest"] not in rec["after"]:
+                    rec["findings"].append({"what": "fault free upload does not publish: %r" % (rec["result"],),
+                                            "signature": "upload-does-not-publish"})
+            else:
+                inj = "%s:%s:when=%d" % (f["sys"], "error=EIO" if f["what"] == "eio" else "signal=SIGKILL", f["k"])
+                rec = run_single(fix, spec, "replay", inject=[inj])
+                rec["fault"] = f
+                _failed_upload_clause(spec, rec)
+            _report(ctx, rec["findings"], case)
+        except T.TraceUnavailable as e:
+            ctx.skip("strace: %s" % e)
+        finally:
+            fix.cleanup()
+            shutil.rmtree(wd, ignore_errors=True)
     elif mode == "sched":
         out = sched_wrapper((case["spec"], wd, far))
         _report(ctx, out.get("findings") or [], case)
